@@ -285,7 +285,7 @@ Proof. intros H e. split; [intros [[] _] | intros [Hin Hc]; exfalso; eapply H; e
 Lemma nocov_nil k : nocov k [].
 Proof. intros e []. Qed.
 
-Lemma under b t e : wfu b t -> In e (entries t) -> prefix_of b (bits (fst e)).
+Lemma entry_under b t e : wfu b t -> In e (entries t) -> prefix_of b (bits (fst e)).
 Proof. intros H Hin. exact (entries_under pfx T bits ok b t e H Hin). Qed.
 
 Lemma nocov_root b t k :
@@ -294,18 +294,18 @@ Lemma nocov_root b t k :
 Proof.
   intros Hwf Hn e Hin Hc. destruct t as [|i p v l r]; [contradiction|].
   apply Hn. eapply prefix_of_trans; [|exact Hc].
-  eapply under; [eapply wf_self; exact Hwf | exact Hin].
+  eapply entry_under; [eapply wf_self; exact Hwf | exact Hin].
 Qed.
 
 Lemma nocov_bound b t k : wfu b t -> ~ prefix_of b k -> nocov k (entries t).
 Proof.
-  intros Hwf Hn e Hin Hc. apply Hn. eapply prefix_of_trans; [|exact Hc]. eapply under; eauto.
+  intros Hwf Hn e Hin Hc. apply Hn. eapply prefix_of_trans; [|exact Hc]. eapply entry_under; eauto.
 Qed.
 
 Lemma entries_longer q s c e : wfu (bits q ++ [s]) c -> In e (entries c) ->
   length (bits q) < length (bits (fst e)).
 Proof.
-  intros Hwf Hin. pose proof (under _ _ _ Hwf Hin) as H. apply prefix_of_len in H.
+  intros Hwf Hin. pose proof (entry_under _ _ _ Hwf Hin) as H. apply prefix_of_len in H.
   rewrite app_length in H. cbn in H. lia.
 Qed.
 
@@ -319,7 +319,7 @@ Proof.
   assert (Hother : In e (entries (child_of pfx T rl rr (negb s))) -> prefix_of (bits (fst e)) k -> False).
   { intros Hin Hc.
     assert (Hu : prefix_of (bits q ++ [negb s]) (bits (fst e))).
-    { destruct s; cbn [negb child_of] in *; eapply under; eauto. }
+    { destruct s; cbn [negb child_of] in *; eapply entry_under; eauto. }
     destruct (branch_incomparable _ _ _ _ Hk Hu) as [A _]. apply A. exact Hc. }
   destruct s; cbn [child_of negb] in *; tauto.
 Qed.
@@ -331,8 +331,8 @@ Proof.
   intros Hwf e Hin Hc.
   pose proof (wf_node_inv _ _ _ _ _ _ _ _ _ _ Hwf) as [_ [_ [Hl Hr]]].
   rewrite in_app_iff in Hin. destruct Hin as [Hin|Hin].
-  - eapply below_not_above; [eapply under; [exact Hl | exact Hin] | exact Hc].
-  - eapply below_not_above; [eapply under; [exact Hr | exact Hin] | exact Hc].
+  - eapply below_not_above; [eapply entry_under; [exact Hl | exact Hin] | exact Hc].
+  - eapply below_not_above; [eapply entry_under; [exact Hr | exact Hin] | exact Hc].
 Qed.
 
 Lemma nocov_unvalued b j q rl rr :
@@ -631,7 +631,7 @@ Lemma nocov_incomp ba bb (a : treeL) (b : treeR) e :
   wfL ba a -> wfR bb b -> incomp ba bb -> In e (entries a) -> nocov (bits (fst e)) (entries b).
 Proof.
   intros Ha Hb [N1 N2] Hin. eapply nocov_bound; [exact Hb|]. intros Hc.
-  pose proof (under L _ _ _ Ha Hin) as Hu.
+  pose proof (entry_under L _ _ _ Ha Hin) as Hu.
   destruct (prefix_of_comparable _ _ _ Hu Hc); contradiction.
 Qed.
 
@@ -645,7 +645,7 @@ Proof.
   eapply nocov_bound; [exact Hr|].
   pose proof (side_ext p q Hp Hq Hsp) as Hs.
   assert (Hu : prefix_of (bits p ++ [negb (to_right p q)]) (bits (fst e))).
-  { eapply under; [eapply wf_child; exact Hl | exact Hin]. }
+  { eapply entry_under; [eapply wf_child; exact Hl | exact Hin]. }
   destruct (branch_incomparable _ _ _ _ Hs Hu) as [_ A]. exact A.
 Qed.
 
@@ -791,10 +791,10 @@ Proof.
     + intros ->. reflexivity.
     + eapply FM_weaken; [apply N2; exact H2|]. intros e o' Hin HP.
       eapply (PI_child _ _ _ _ _ _ false); [exact Hr | | exact HP].
-      rewrite <- Hrel. eapply under; [exact Hll | exact Hin].
+      rewrite <- Hrel. eapply entry_under; [exact Hll | exact Hin].
     + eapply FM_weaken; [apply N1; exact H1|]. intros e o' Hin HP.
       eapply (PI_child _ _ _ _ _ _ true); [exact Hr | | exact HP].
-      rewrite <- Hrel. eapply under; [exact Hlr | exact Hin].
+      rewrite <- Hrel. eapply entry_under; [exact Hlr | exact Hin].
   - (* FirstA *)
     rewrite i_first_a_eq. cbn [tpfx].
     destruct (sel_wf L _ _ _ _ _ _ q Hl) as [s Hs].
@@ -812,7 +812,7 @@ Proof.
     split; [exact F|]. intros ls HF. cbn [opt_cons]. unfold RI. cbn [ilt irt].
     eapply FM_weaken; [apply N; exact HF|]. intros e o' Hin HP.
     eapply PI_sel; [exact Hr | exact Hp | exact Hrel | | exact HP].
-    eapply under; [exact Hl | exact Hin].
+    eapply entry_under; [exact Hl | exact Hin].
 Qed.
 
 (** exactly the keys stored in both operands, once, ascending, with both values; the reported
@@ -861,15 +861,15 @@ Proof.
   intros Ha Hb N1 N2. destruct (intersection_correct _ _ _ _ Ha Hb) as [out [E [_ [H _]]]].
   rewrite E. f_equal. destruct out as [|[[p l] r] out]; [reflexivity|]. exfalso.
   destruct (H p l r (or_introl eq_refl)) as [HA [pr [HB Hk]]].
-  pose proof (under L _ _ _ Ha HA) as U1. pose proof (under R _ _ _ Hb HB) as U2.
+  pose proof (entry_under L _ _ _ Ha HA) as U1. pose proof (entry_under R _ _ _ Hb HB) as U2.
   cbn [fst] in *. rewrite Hk in U2.
   destruct (prefix_of_comparable _ _ _ U1 U2); contradiction.
 Qed.
 
 (** *** [intersection_mut] *)
-Definition sub {T} (t' t : Trie.tree pfx T) : Prop := t' = t \/ t' = tleft t \/ t' = tright t.
+Definition subtree1 {T} (t' t : Trie.tree pfx T) : Prop := t' = t \/ t' = tleft t \/ t' = tright t.
 
-Lemma sub_incl T (t' t : Trie.tree pfx T) : sub t' t -> incl (entries_id t') (entries_id t).
+Lemma sub_incl T (t' t : Trie.tree pfx T) : subtree1 t' t -> incl (entries_id t') (entries_id t).
 Proof.
   intros [-> | [-> | ->]]; [apply incl_refl| |]; destruct t as [|i p v l r];
     cbn [tleft tright entries_id]; try apply incl_refl; intros e He; rewrite !in_app_iff; auto.
@@ -883,16 +883,16 @@ Proof.
   destruct (i_next_shape a b) as [->|[x [-> [E1 E2]]]]; [intros []|]. intros [<-|[]]. auto.
 Qed.
 
-Lemma i_children x c : In c (snd (i_expand x)) -> sub (ilt c) (ilt x) /\ sub (irt c) (irt x).
+Lemma i_children x c : In c (snd (i_expand x)) -> subtree1 (ilt c) (ilt x) /\ subtree1 (irt c) (irt x).
 Proof.
   destruct x as [l r|l r|l r]; cbn [SetOps.i_expand snd ilt irt].
-  - rewrite in_app_iff. intros [H|H]; apply i_next_in in H; destruct H as [-> ->]; unfold sub; auto.
+  - rewrite in_app_iff. intros [H|H]; apply i_next_in in H; destruct H as [-> ->]; unfold subtree1; auto.
   - unfold i_next_first_a. destruct (is_node (tleft l)), (is_node (tright l));
       try destruct (to_right _ _); intros H; try contradiction;
-      apply i_next_in in H; destruct H as [-> ->]; unfold sub; auto.
+      apply i_next_in in H; destruct H as [-> ->]; unfold subtree1; auto.
   - unfold i_next_first_b. destruct (is_node (tleft r)), (is_node (tright r));
       try destruct (to_right _ _); intros H; try contradiction;
-      apply i_next_in in H; destruct H as [-> ->]; unfold sub; auto.
+      apply i_next_in in H; destruct H as [-> ->]; unfold subtree1; auto.
 Qed.
 
 Definition iproj : imitem pfx L R -> pfx * L * R := fun '(p, (_, l), (_, r)) => (p, l, r).
@@ -941,3 +941,698 @@ Proof.
       split; apply incl_refl. }
   intros p i l j r Hin. rewrite Forall_forall in HQ. exact (HQ _ Hin).
 Qed.
+
+(* ---------------------------------------------------------------------------------------- *)
+(** * difference and covering difference: the shared part *)
+
+Notation didx := (SetOps.didx pfx L R).
+Notation d_next := (d_next_indices pfx L R contains plen pzero mcmp).
+Notation d_first_a := (d_next_first_a pfx L R contains is_bit_set plen pzero mcmp).
+Notation d_first_b := (d_next_first_b pfx L R contains is_bit_set plen pzero mcmp).
+Notation d_ext := (d_extend_lpm pfx L R).
+Notation d_only := (d_only_l pfx L R).
+Notation d_expand := (SetOps.d_expand pfx L R contains is_bit_set plen pzero mcmp).
+Notation dm_expand := (SetOps.dm_expand pfx L R contains is_bit_set plen pzero mcmp).
+Notation cd_expand := (SetOps.cd_expand pfx L R contains is_bit_set plen pzero mcmp).
+Notation cdm_expand := (SetOps.cdm_expand pfx L R contains is_bit_set plen pzero mcmp).
+Notation difference := (SetOps.difference pfx L R contains is_bit_set plen pzero mcmp).
+Notation difference_mut := (SetOps.difference_mut pfx L R contains is_bit_set plen pzero mcmp).
+Notation covering_difference := (SetOps.covering_difference pfx L R contains is_bit_set plen pzero mcmp).
+Notation covering_difference_mut :=
+  (SetOps.covering_difference_mut pfx L R contains is_bit_set plen pzero mcmp).
+#[local] Arguments DBoth {pfx L R}.
+#[local] Arguments DFirstL {pfx L R}.
+#[local] Arguments DFirstR {pfx L R}.
+#[local] Arguments DOnlyL {pfx L R}.
+
+Definition dlt (x : didx) : treeL :=
+  match x with DBoth l _ | DFirstL l _ | DFirstR l _ | DOnlyL l => l end.
+Definition drt (x : didx) : treeR :=
+  match x with DBoth _ r | DFirstL _ r | DFirstR _ r => r | DOnlyL _ => Leaf end.
+Definition dsize (x : didx) : nat := tsize (dlt x) + tsize (drt x).
+Definition dok0 (x : didx) : Prop :=
+  nodeW (dlt x) /\
+  match x with
+  | DBoth l r => nodeW r /\ kb l = kb r
+  | DFirstL l r => nodeW r /\ sprefix (kb l) (kb r)
+  | DFirstR l r => nodeW r /\ sprefix (kb r) (kb l)
+  | DOnlyL _ => True
+  end.
+(** the entries pushed by one iteration (before the inherited match is attached) *)
+Definition dchildren (x : didx) : list didx :=
+  match x with
+  | DBoth l r => d_next (tright l) (tright r) ++ d_next (tleft l) (tleft r)
+  | DFirstL l r => d_first_a l r
+  | DFirstR l r => d_first_b l r
+  | DOnlyL l => d_only l
+  end.
+
+Lemma dsize_eq x : dsize x = tsize (dlt x) + tsize (drt x).
+Proof. reflexivity. Qed.
+
+Lemma d_next_shape a b :
+  d_next a b = [] \/ exists x, d_next a b = [x] /\ dlt x = a /\ tsize (drt x) <= tsize b.
+Proof.
+  unfold d_next_indices. destruct (is_node a); [|auto]. destruct (is_node b).
+  - destruct (plen _ =? plen _)%N.
+    + destruct (mcmp _ _); right; eexists; repeat split; cbn [drt tsize]; lia.
+    + destruct (contains _ _); [right; eexists; repeat split; cbn [drt tsize]; lia|].
+      destruct (contains _ _); right; eexists; repeat split; cbn [drt tsize]; lia.
+  - right; eexists; repeat split; cbn [drt tsize]; lia.
+Qed.
+
+Lemma d_next_in a b c : In c (d_next a b) -> dlt c = a.
+Proof.
+  destruct (d_next_shape a b) as [->|[x [-> [E1 E2]]]]; [intros []|]. intros [<-|[]]. exact E1.
+Qed.
+
+Lemma d_next_size a b : msize didx dsize (d_next a b) <= tsize a + tsize b.
+Proof.
+  destruct (d_next_shape a b) as [->|[x [-> [<- E2]]]]; unfold msize; cbn [map list_sum fold_right]; [lia|].
+  rewrite dsize_eq. lia.
+Qed.
+
+Lemma d_next_cases ba bb a b : wfL ba a -> wfR bb b ->
+  (a = Leaf /\ d_next a b = []) \/
+  (nodeW a /\ d_next a b = [DOnlyL a] /\ forall e, In e (entries a) -> nocov (bits (fst e)) (entries b)) \/
+  (exists x, d_next a b = [x] /\ dlt x = a /\ drt x = b /\ dok0 x).
+Proof.
+  intros Ha Hb. destruct a as [|i p v ll lr]; [left; split; reflexivity|]. right.
+  pose proof (wf_node_inv _ _ _ _ _ _ _ _ _ _ Ha) as [Hp _].
+  pose proof (wf_self _ _ _ _ _ _ _ _ _ _ Ha) as Ha'.
+  set (A := Node i p v ll lr) in *.
+  assert (NA : nodeW A) by (split; [reflexivity | exact Ha']).
+  destruct b as [|j q w rl rr].
+  { left. split; [exact NA|]. split; [reflexivity|]. intros e _. apply nocov_nil. }
+  pose proof (wf_node_inv _ _ _ _ _ _ _ _ _ _ Hb) as [Hq _].
+  pose proof (wf_self _ _ _ _ _ _ _ _ _ _ Hb) as Hb'.
+  set (B := Node j q w rl rr) in *.
+  assert (NB : nodeW B) by (split; [reflexivity | exact Hb']).
+  unfold d_next_indices. cbn [is_node tpfx A B]. cbv zeta. fold A. fold B.
+  pose proof (classify _ p q [DBoth A B] [DOnlyL A] [DFirstL A B] [DFirstR A B] [DOnlyL A] Hp Hq) as C.
+  cbv zeta in C.
+  destruct C as [[H ->]|[[H ->]|[[H ->]|[[H ->]|[H ->]]]]].
+  - right. eexists. split; [reflexivity|]. repeat split; try apply NA; try apply NB. exact H.
+  - left. split; [exact NA|]. split; [reflexivity|]. intros e Hin. eapply nocov_incomp; eassumption.
+  - right. eexists. split; [reflexivity|]. repeat split; try apply NA; try apply NB; apply H.
+  - right. eexists. split; [reflexivity|]. repeat split; try apply NA; try apply NB; apply H.
+  - left. split; [exact NA|]. split; [reflexivity|]. intros e Hin. eapply nocov_incomp; eassumption.
+Qed.
+
+Lemma d_next_ok ba bb a b : wfL ba a -> wfR bb b -> Forall dok0 (d_next a b).
+Proof.
+  intros Ha Hb. destruct (d_next_cases _ _ _ _ Ha Hb) as [[_ ->]|[[N [-> _]]|[x [-> [_ [_ H]]]]]].
+  - constructor.
+  - constructor; [split; [exact N | exact I] | constructor].
+  - constructor; [exact H | constructor].
+Qed.
+
+Lemma d_first_b_eq i p v ll lr j q w rl rr :
+  d_first_b (Node i p v ll lr) (Node j q w rl rr) = d_next (Node i p v ll lr) (sel q rl rr p).
+Proof.
+  unfold d_next_first_b, sel. cbn [tleft tright tpfx].
+  destruct (is_node rl) eqn:Nl, (is_node rr) eqn:Nr; try reflexivity.
+  destruct (to_right _ _); reflexivity.
+Qed.
+
+Lemma nodeW_child b i p v (ll lr : treeL) s :
+  wfL b (Node i p v ll lr) -> is_node (child_of pfx L ll lr s) = true -> nodeW (child_of pfx L ll lr s).
+Proof. intros H N. eapply nodeW_of; [eapply wf_child; exact H | exact N]. Qed.
+
+Lemma d_children_ok x : dok0 x -> Forall dok0 (dchildren x).
+Proof.
+  intros [[Nl Hl] Hx]. destruct x as [l r|l r|l r|l]; cbn [dlt dchildren] in *;
+    (destruct l as [|i p v ll lr]; [discriminate|]);
+    pose proof (wf_node_inv _ _ _ _ _ _ _ _ _ _ Hl) as [Hp [_ [Hll Hlr]]].
+  - destruct Hx as [[Nr Hr] _]. destruct r as [|j q w rl rr]; [discriminate|].
+    pose proof (wf_node_inv _ _ _ _ _ _ _ _ _ _ Hr) as [Hq [_ [Hrl Hrr]]].
+    cbn [tleft tright]. apply Forall_app. split; eapply d_next_ok; eassumption.
+  - destruct Hx as [[Nr Hr] _]. unfold d_next_first_a. cbn [tleft tright].
+    destruct (is_node ll) eqn:N1, (is_node lr) eqn:N2.
+    + destruct (to_right _ _).
+      * apply Forall_app. split; [eapply d_next_ok; eassumption|].
+        constructor; [|constructor]. split; [|exact I]. exact (nodeW_child _ _ _ _ _ _ false Hl N1).
+      * constructor; [|eapply d_next_ok; eassumption].
+        split; [|exact I]. exact (nodeW_child _ _ _ _ _ _ true Hl N2).
+    + eapply d_next_ok; eassumption.
+    + eapply d_next_ok; eassumption.
+    + constructor.
+  - destruct Hx as [[Nr Hr] _]. destruct r as [|j q w rl rr]; [discriminate|].
+    rewrite d_first_b_eq. destruct (sel_wf R _ _ _ _ _ _ p Hr) as [s Hs].
+    eapply d_next_ok; eassumption.
+  - unfold d_only_l. cbn [tleft tright]. apply Forall_app. split.
+    + destruct (is_node lr) eqn:N2; constructor; [|constructor].
+      split; [|exact I]. exact (nodeW_child _ _ _ _ _ _ true Hl N2).
+    + destruct (is_node ll) eqn:N1; constructor; [|constructor].
+      split; [|exact I]. exact (nodeW_child _ _ _ _ _ _ false Hl N1).
+Qed.
+
+Lemma d_children_size x : dok0 x -> msize didx dsize (dchildren x) < dsize x.
+Proof.
+  intros [[Nl _] Hx]. rewrite dsize_eq.
+  destruct x as [l r|l r|l r|l]; cbn [dlt drt dchildren] in *;
+    (destruct l as [|i p v ll lr]; [discriminate|]); cbn [tsize].
+  - destruct Hx as [[Nr _] _]. destruct r as [|j q w rl rr]; [discriminate|]. cbn [tsize tleft tright].
+    rewrite msize_app. pose proof (d_next_size lr rr). pose proof (d_next_size ll rl). lia.
+  - unfold d_next_first_a. cbn [tleft tright].
+    pose proof (d_next_size lr r). pose proof (d_next_size ll r).
+    destruct (is_node ll), (is_node lr); try destruct (to_right _ _);
+      rewrite ?msize_app, ?msize_cons, ?dsize_eq; cbn [dlt drt tsize]; unfold msize in *; cbn [map list_sum fold_right];
+      rewrite ?dsize_eq; cbn [dlt drt tsize]; lia.
+  - destruct Hx as [[Nr _] _]. destruct r as [|j q w rl rr]; [discriminate|]. rewrite d_first_b_eq.
+    pose proof (d_next_size (Node i p v ll lr) (sel q rl rr p)) as H.
+    pose proof (sel_size R q rl rr p). cbn [tsize] in *. lia.
+  - unfold d_only_l. cbn [tleft tright]. rewrite msize_app.
+    destruct (is_node ll), (is_node lr); unfold msize; cbn [map list_sum fold_right]; rewrite ?dsize_eq;
+      cbn [dlt drt tsize]; lia.
+Qed.
+
+Lemma d_children_in x c : In c (dchildren x) -> subtree1 (dlt c) (dlt x).
+Proof.
+  destruct x as [l r|l r|l r|l]; cbn [dchildren dlt].
+  - rewrite in_app_iff. intros [H|H]; apply d_next_in in H; rewrite H; unfold subtree1; auto.
+  - unfold d_next_first_a. destruct (is_node (tleft l)), (is_node (tright l));
+      try destruct (to_right _ _); cbn [In]; rewrite ?in_app_iff; cbn [In]; unfold subtree1;
+      intros H; repeat (destruct H as [H|H]); try contradiction;
+      try (apply d_next_in in H; rewrite H; auto); try (subst c; cbn [dlt]; auto).
+  - unfold d_next_first_b. destruct (is_node (tleft r)), (is_node (tright r));
+      try destruct (to_right _ _); cbn [In]; unfold subtree1;
+      intros H; repeat (destruct H as [H|H]); try contradiction;
+      try (apply d_next_in in H; rewrite H; auto); try (subst c; cbn [dlt]; auto).
+  - unfold d_only_l. destruct (is_node (tleft l)), (is_node (tright l)); cbn [app In]; unfold subtree1;
+      intros H; repeat (destruct H as [H|H]); try contradiction; subst c; cbn [dlt]; auto.
+Qed.
+
+(** the shape of the children lists, against an arbitrary per-entry relation *)
+Section Shape.
+Variables (I : Type) (P : pfx * L -> option I -> Prop) (Rg : didx -> list I -> Prop).
+
+Lemma F2_app_FM (c1 c2 : list didx) (A1 A2 : list (pfx * L)) :
+  (forall ls, Forall2 Rg (rev c2) ls -> FM P A2 (concat ls)) ->
+  (forall ls, Forall2 Rg (rev c1) ls -> FM P A1 (concat ls)) ->
+  forall ls, Forall2 Rg (rev (c1 ++ c2)) ls -> FM P (A2 ++ A1) (concat ls).
+Proof.
+  intros H2 H1 ls HF. apply Forall2_rev_app_inv in HF. destruct HF as [l2 [l1 [-> [F2 F1]]]].
+  rewrite concat_app. apply FM_app; [apply H2; exact F2 | apply H1; exact F1].
+Qed.
+
+Lemma F2_one_FM (c : didx) (A : list (pfx * L)) :
+  (forall out, Rg c out -> FM P A out) -> forall ls, Forall2 Rg (rev [c]) ls -> FM P A (concat ls).
+Proof.
+  intros H ls HF. apply Forall2_single_inv in HF. destruct HF as [out [-> HR]].
+  rewrite concat_single. apply H. exact HR.
+Qed.
+
+Lemma F2_only_FM (c : treeL) :
+  (forall out, Rg (DOnlyL c) out -> FM P (entries c) out) ->
+  forall ls, Forall2 Rg (rev (if is_node c then [DOnlyL c] else [])) ls -> FM P (entries c) (concat ls).
+Proof.
+  intros H. destruct c as [|i p v l r]; cbn [is_node].
+  - intros ls HF. apply Forall2_nil_inv in HF. subst ls. constructor.
+  - apply F2_one_FM. exact H.
+Qed.
+
+Lemma d_first_a_FM i p v (ll lr : treeL) (r : treeR) :
+  let s := to_right p (tpfx pfx R pzero r) in
+  (forall a ls, a = ll \/ a = lr -> Forall2 Rg (rev (d_next a r)) ls -> FM P (entries a) (concat ls)) ->
+  (forall out, Rg (DOnlyL (child_of pfx L ll lr (negb s))) out ->
+               FM P (entries (child_of pfx L ll lr (negb s))) out) ->
+  forall ls, Forall2 Rg (rev (d_first_a (Node i p v ll lr) r)) ls ->
+             FM P (entries ll ++ entries lr) (concat ls).
+Proof.
+  intros s Hnext Honly. unfold d_next_first_a. cbn [tleft tright tpfx]. fold s.
+  destruct (is_node ll) eqn:N1, (is_node lr) eqn:N2.
+  - destruct s; cbn [negb child_of] in Honly.
+    + apply F2_app_FM; [apply F2_one_FM; exact Honly | intros ls; apply Hnext; auto].
+    + change (DOnlyL lr :: d_next ll r) with ([DOnlyL lr] ++ d_next ll r).
+      apply F2_app_FM; [intros ls; apply Hnext; auto | apply F2_one_FM; exact Honly].
+  - destruct lr; [|discriminate]. cbn [entries]. rewrite app_nil_r. intros ls. apply Hnext. auto.
+  - destruct ll; [|discriminate]. cbn [entries app]. intros ls. apply Hnext. auto.
+  - destruct ll; [|discriminate]. destruct lr; [|discriminate].
+    intros ls HF. apply Forall2_nil_inv in HF. subst ls. constructor.
+Qed.
+
+Lemma d_only_FM i p v (ll lr : treeL) :
+  (forall c out, Rg (DOnlyL c) out -> FM P (entries c) out) ->
+  forall ls, Forall2 Rg (rev (d_only (Node i p v ll lr))) ls -> FM P (entries ll ++ entries lr) (concat ls).
+Proof.
+  intros H. unfold d_only_l. cbn [tleft tright].
+  apply F2_app_FM; apply F2_only_FM; apply H.
+Qed.
+End Shape.
+
+Lemma Forall2_map_l' {X Y Z} (g : X -> Y) (Rl : Y -> Z -> Prop) xs : forall ls,
+  Forall2 Rl (map g xs) ls -> Forall2 (fun x => Rl (g x)) xs ls.
+Proof.
+  induction xs as [|x xs IH]; intros ls H; inversion H; subst; constructor; auto.
+Qed.
+
+(* ---------------------------------------------------------------------------------------- *)
+(** * covering difference *)
+
+Definition RC (x : didx) (out : list (pfx * L)) : Prop :=
+  FM (PC (entries (drt x))) (entries (dlt x)) out.
+
+Lemma cn_local ba bb a b : wfL ba a -> wfR bb b ->
+  forall ls, Forall2 RC (rev (d_next a b)) ls -> FM (PC (entries b)) (entries a) (concat ls).
+Proof.
+  intros Ha Hb.
+  destruct (d_next_cases _ _ _ _ Ha Hb) as [[-> ->]|[[N [-> Hn]]|[x [-> [E1 [E2 _]]]]]].
+  - intros ls HF. apply Forall2_nil_inv in HF. subst ls. constructor.
+  - apply F2_one_FM. intros out H. unfold RC in H. cbn [dlt drt] in H.
+    eapply FM_weaken; [exact H|]. intros e o Hin HP. eapply PC_ceq; [|exact HP].
+    apply ceq_nocov. apply Hn. exact Hin.
+  - apply F2_one_FM. intros out H. unfold RC in H. rewrite E1, E2 in H. exact H.
+Qed.
+
+Lemma cd_children x o cs : cd_expand x = (o, cs) -> cs = dchildren x \/ cs = [].
+Proof.
+  destruct x as [l r|l r|l r|l]; cbn [SetOps.cd_expand dchildren]; try destruct (is_some (tval r));
+    intros H; inversion H; auto.
+Qed.
+
+Lemma cd_dec x o cs : dok0 x -> cd_expand x = (o, cs) -> msize didx dsize cs < dsize x.
+Proof.
+  intros Hok Hex. pose proof (d_children_size x Hok) as H.
+  destruct (cd_children _ _ _ Hex) as [->| ->]; [exact H|].
+  unfold msize in *. cbn [map list_sum fold_right]. lia.
+Qed.
+
+Lemma cd_local x o cs : dok0 x -> cd_expand x = (o, cs) ->
+  Forall dok0 cs /\ forall ls, Forall2 RC (rev cs) ls -> RC x (opt_cons _ o (concat ls)).
+Proof.
+  intros Hok Hex. split.
+  { destruct (cd_children _ _ _ Hex) as [->| ->]; [apply d_children_ok; exact Hok | constructor]. }
+  destruct Hok as [[Nl Hl] Hx]. unfold RC.
+  destruct x as [l r|l r|l r|l]; cbn [dlt drt] in *;
+    (destruct l as [|i p v ll lr]; [discriminate|]);
+    pose proof (wf_node_inv _ _ _ _ _ _ _ _ _ _ Hl) as [Hp [_ [Hll Hlr]]];
+    cbn [SetOps.cd_expand] in Hex.
+  - (* Both *)
+    destruct Hx as [[Nr Hr] Hrel]. destruct r as [|j q w rl rr]; [discriminate|].
+    pose proof (wf_node_inv _ _ _ _ _ _ _ _ _ _ Hr) as [Hq [_ [Hrl Hrr]]].
+    cbn [tval tpfx tleft tright] in *. destruct w as [y|]; cbn [is_some is_none negb] in Hex; inv_expand Hex o cs.
+    + intros ls HF. apply Forall2_nil_inv in HF. subst ls. cbn [opt_cons concat].
+      apply FM_none. intros e Hin. exists (q, y). split; [apply in_entries_own|].
+      cbn [fst]. rewrite <- Hrel. eapply entry_under; [exact Hl | exact Hin].
+    + intros ls HF. apply FM_node'.
+      * intros x ->. apply PC_nocov. cbn [fst]. rewrite Hrel. eapply nocov_unvalued. exact Hr.
+      * intros ->. reflexivity.
+      * revert ls HF. apply F2_app_FM.
+        -- intros ls HF. eapply FM_weaken; [eapply cn_local; [exact Hll | exact Hrl | exact HF]|].
+           intros e o' Hin HP. eapply (PC_child _ _ _ _ _ false); [exact Hr | | exact HP].
+           rewrite <- Hrel. eapply entry_under; [exact Hll | exact Hin].
+        -- intros ls HF. eapply FM_weaken; [eapply cn_local; [exact Hlr | exact Hrr | exact HF]|].
+           intros e o' Hin HP. eapply (PC_child _ _ _ _ _ true); [exact Hr | | exact HP].
+           rewrite <- Hrel. eapply entry_under; [exact Hlr | exact Hin].
+  - (* FirstL *)
+    destruct Hx as [[Nr Hr] Hrel]. inv_expand Hex o cs. cbn [tval tpfx] in *.
+    assert (Hq : ok (tpfx pfx R pzero r)).
+    { destruct r as [|j q w rl rr]; [discriminate|]. apply (wf_node_inv _ _ _ _ _ _ _ _ _ _ Hr). }
+    intros ls HF. apply FM_node'.
+    + intros x ->. apply PC_nocov. cbn [fst]. eapply nocov_above; eassumption.
+    + intros ->. reflexivity.
+    + revert ls HF. apply d_first_a_FM.
+      * intros a ls [-> | ->] HF; eapply cn_local; eassumption.
+      * intros out H. unfold RC in H. cbn [dlt drt] in H. eapply FM_weaken; [exact H|].
+        intros e o' Hin HP. eapply PC_ceq; [|exact HP]. apply ceq_nocov.
+        eapply nocov_other; [exact Hl | exact Hq | exact Hr | exact Hrel | exact Hin].
+  - (* FirstR *)
+    destruct Hx as [[Nr Hr] Hrel]. destruct r as [|j q w rl rr]; [discriminate|].
+    cbn [tval tpfx] in *. destruct w as [y|]; cbn [is_some is_none negb] in Hex; inv_expand Hex o cs.
+    + intros ls HF. apply Forall2_nil_inv in HF. subst ls. cbn [opt_cons concat].
+      apply FM_none. intros e Hin. exists (q, y). split; [apply in_entries_own|].
+      cbn [fst]. eapply prefix_of_trans; [exact (proj1 Hrel)|]. eapply entry_under; [exact Hl | exact Hin].
+    + rewrite d_first_b_eq. destruct (sel_wf R _ _ _ _ _ _ p Hr) as [s Hs].
+      intros ls HF. cbn [opt_cons].
+      eapply FM_weaken; [eapply cn_local; [exact Hl | exact Hs | exact HF]|].
+      intros e o' Hin HP. eapply PC_sel; [exact Hr | exact Hp | exact Hrel | | exact HP].
+      eapply entry_under; [exact Hl | exact Hin].
+  - (* OnlyL *)
+    inv_expand Hex o cs. cbn [tval tpfx]. intros ls HF. apply FM_node'.
+    + intros x ->. apply PC_nocov. apply nocov_nil.
+    + intros ->. reflexivity.
+    + revert ls HF. apply d_only_FM. intros c out H. exact H.
+Qed.
+
+(** the entries of the left operand whose key is not covered by any key of the right operand *)
+Definition cdiff_spec (A : list (pfx * L)) (B : list (pfx * R)) (out : list (pfx * L)) : Prop :=
+  StronglySorted (fun i j => lex_lt (bits (fst i)) (bits (fst j))) out /\
+  (forall e, In e out <->
+             In e A /\ forall e', In e' B -> ~ prefix_of (bits (fst e')) (bits (fst e))).
+
+Lemma FM_cdiff_spec ba ta B out : wfL ba ta ->
+  FM (PC B) (entries ta) out -> cdiff_spec (entries ta) B out.
+Proof.
+  intros Ha H. split.
+  - apply (FM_sorted _ _ (fun e => bits (fst e)) (fun e => bits (fst e)) (PC B) (entries ta) out).
+    + intros e it [E _]. rewrite E. reflexivity.
+    + exact (entries_sorted pfx L bits ok ba ta Ha).
+    + exact H.
+  - intros e. split.
+    + intros Hin. destruct (FM_in _ _ _ _ _ _ H Hin) as [e0 [He0 [E Hn]]]. subst e0.
+      split; [exact He0 | exact Hn].
+    + intros [Hin Hn]. destruct (FM_complete _ _ _ _ _ _ H Hin) as [[e' [He' Hc]]|[it [Hi [E _]]]].
+      * exfalso. eapply Hn; eauto.
+      * subst it. exact Hi.
+Qed.
+
+Theorem covering_difference_correct ba bb ta tb : wfL ba ta -> wfR bb tb ->
+  exists out, covering_difference ta tb = Some out /\ cdiff_spec (entries ta) (entries tb) out.
+Proof.
+  intros Ha Hb.
+  destruct (run_rel didx (pfx * L) cd_expand dsize dok0 RC cd_dec cd_local
+                    (so_fuel pfx L R ta tb) (rev (d_next ta tb))) as [ls [HF Hrun]].
+  - apply Forall_rev. eapply d_next_ok; eassumption.
+  - rewrite msize_rev. pose proof (d_next_size ta tb). unfold so_fuel. lia.
+  - exists (concat ls). split; [exact Hrun|]. eapply FM_cdiff_spec; [exact Ha|].
+    eapply cn_local; eassumption.
+Qed.
+
+(* ---------------------------------------------------------------------------------------- *)
+(** * difference *)
+
+(** consistency of the inherited match: it already accounts for the right root *)
+Definition dcons (x : didx) (rho : lpmR) : Prop :=
+  match x with
+  | DBoth _ r | DFirstR _ r => forall y, tval r = Some y -> rho = Some (tpfx pfx R pzero r, y)
+  | _ => True
+  end.
+Definition dext (rho : lpmR) (x : didx) : lpmR :=
+  match x with DBoth _ r | DFirstR _ r => orelse (pv r) rho | _ => rho end.
+Definition dok (e : didx * lpmR) : Prop := dok0 (fst e) /\ dcons (fst e) (snd e).
+Definition dsz (e : didx * lpmR) : nat := dsize (fst e).
+Definition RD (e : didx * lpmR) (out : list (pfx * L * lpmR)) : Prop :=
+  FM (PD (entries (drt (fst e))) (snd e)) (entries (dlt (fst e))) out.
+
+Lemma d_ext_eq rho xs : d_ext rho xs = map (fun x => (x, dext rho x)) xs.
+Proof. unfold d_extend_lpm. apply map_ext. intros [l r|l r|l r|l]; reflexivity. Qed.
+
+Lemma dcons_dext rho x : dcons x (dext rho x).
+Proof.
+  destruct x as [l r|l r|l r|l]; cbn [dcons dext]; trivial;
+    intros y E; destruct r as [|j q [w|] rl rr]; cbn in *; try discriminate; inversion E; reflexivity.
+Qed.
+
+Lemma PD_dext rho x e o : dok0 x -> In e (entries (dlt x)) ->
+  PD (entries (drt x)) (dext rho x) e o -> PD (entries (drt x)) rho e o.
+Proof.
+  intros [[Nl Hl] Hx] Hin. destruct x as [l r|l r|l r|l]; cbn [dext dlt drt] in *; trivial.
+  - destruct Hx as [[Nr Hr] Hrel]. apply PD_orelse. intros e0 E.
+    destruct r as [|j q [y|] rl rr]; cbn in E; try discriminate. inversion E; subst e0.
+    split; [apply in_entries_own|]. cbn [fst tpfx] in *. rewrite <- Hrel.
+    eapply entry_under; [exact Hl | exact Hin].
+  - destruct Hx as [[Nr Hr] Hrel]. apply PD_orelse. intros e0 E.
+    destruct r as [|j q [y|] rl rr]; cbn in E; try discriminate. inversion E; subst e0.
+    split; [apply in_entries_own|]. cbn [fst tpfx] in *.
+    eapply prefix_of_trans; [exact (proj1 Hrel)|]. eapply entry_under; [exact Hl | exact Hin].
+Qed.
+
+Lemma dn_local rho ba bb a b : wfL ba a -> wfR bb b ->
+  forall ls, Forall2 (fun x => RD (x, dext rho x)) (rev (d_next a b)) ls ->
+             FM (PD (entries b) rho) (entries a) (concat ls).
+Proof.
+  intros Ha Hb.
+  destruct (d_next_cases _ _ _ _ Ha Hb) as [[-> ->]|[[N [-> Hn]]|[x [-> [E1 [E2 Hok]]]]]].
+  - intros ls HF. apply Forall2_nil_inv in HF. subst ls. constructor.
+  - apply F2_one_FM. intros out H. unfold RD in H. cbn [fst snd dext dlt drt] in H.
+    eapply FM_weaken; [exact H|]. intros e o Hin HP. eapply PD_ceq; [|exact HP].
+    apply ceq_nocov. apply Hn. exact Hin.
+  - apply F2_one_FM. intros out H. unfold RD in H. cbn [fst snd] in H.
+    eapply FM_weaken in H; [|intros e o Hin HP; eapply PD_dext; [exact Hok | exact Hin | exact HP]].
+    rewrite E1, E2 in H. exact H.
+Qed.
+
+Lemma d_expand_children x rho : snd (d_expand (x, rho)) = d_ext rho (dchildren x).
+Proof.
+  destruct x as [l r|l r|l r|l]; cbn [SetOps.d_expand snd dchildren]; try reflexivity.
+  unfold d_extend_lpm. rewrite map_app. reflexivity.
+Qed.
+
+Lemma msize_d_ext rho xs : msize _ dsz (d_ext rho xs) = msize _ dsize xs.
+Proof. rewrite d_ext_eq. unfold msize. rewrite map_map. reflexivity. Qed.
+
+Lemma d_ext_ok rho xs : Forall dok0 xs -> Forall dok (d_ext rho xs).
+Proof.
+  intros F. rewrite d_ext_eq. apply Forall_forall. intros c Hc. apply in_map_iff in Hc.
+  destruct Hc as [x' [<- Hx']]. split; cbn [fst snd]; [|apply dcons_dext].
+  rewrite Forall_forall in F. apply F. exact Hx'.
+Qed.
+
+Lemma d_dec e o cs : dok e -> d_expand e = (o, cs) -> msize _ dsz cs < dsz e.
+Proof.
+  destruct e as [x rho]. intros [Hok _] Hex. cbn [fst] in Hok.
+  assert (Hcs : cs = d_ext rho (dchildren x)) by (rewrite <- d_expand_children, Hex; reflexivity).
+  subst cs. rewrite msize_d_ext. apply d_children_size. exact Hok.
+Qed.
+
+Lemma d_local e o cs : dok e -> d_expand e = (o, cs) ->
+  Forall dok cs /\ forall ls, Forall2 RD (rev cs) ls -> RD e (opt_cons _ o (concat ls)).
+Proof.
+  destruct e as [x rho]. intros [Hok Hcons] Hex. cbn [fst snd] in Hok, Hcons.
+  assert (Hcs : cs = d_ext rho (dchildren x)) by (rewrite <- d_expand_children, Hex; reflexivity).
+  assert (Ho : o = fst (d_expand (x, rho))) by (rewrite Hex; reflexivity).
+  clear Hex. subst cs o. split; [apply d_ext_ok; apply d_children_ok; exact Hok|].
+  intros ls HF. rewrite d_ext_eq, <- map_rev in HF. apply Forall2_map_l' in HF.
+  unfold RD. cbn [fst snd]. destruct Hok as [[Nl Hl] Hx].
+  destruct x as [l r|l r|l r|l]; cbn [dlt drt dchildren dcons] in *;
+    (destruct l as [|i p v ll lr]; [discriminate|]);
+    pose proof (wf_node_inv _ _ _ _ _ _ _ _ _ _ Hl) as [Hp [_ [Hll Hlr]]];
+    cbn [SetOps.d_expand fst tval tpfx] in *.
+  - (* Both *)
+    destruct Hx as [[Nr Hr] Hrel]. destruct r as [|j q w rl rr]; [discriminate|].
+    pose proof (wf_node_inv _ _ _ _ _ _ _ _ _ _ Hr) as [Hq [_ [Hrl Hrr]]].
+    cbn [tval tpfx tleft tright] in *. apply FM_node'.
+    + intros x ->. destruct w as [y|]; cbn [is_none].
+      * exists (q, y). split; [apply in_entries_own | symmetry; exact Hrel].
+      * apply PD_nocov. rewrite Hrel. eapply nocov_unvalued. exact Hr.
+    + intros ->. reflexivity.
+    + revert ls HF. apply F2_app_FM.
+      * intros ls HF. eapply FM_weaken; [eapply dn_local; [exact Hll | exact Hrl | exact HF]|].
+        intros e o' Hin HP. eapply (PD_child _ _ _ _ _ _ false); [exact Hr | | exact Hcons | exact HP].
+        rewrite <- Hrel. eapply entry_under; [exact Hll | exact Hin].
+      * intros ls HF. eapply FM_weaken; [eapply dn_local; [exact Hlr | exact Hrr | exact HF]|].
+        intros e o' Hin HP. eapply (PD_child _ _ _ _ _ _ true); [exact Hr | | exact Hcons | exact HP].
+        rewrite <- Hrel. eapply entry_under; [exact Hlr | exact Hin].
+  - (* FirstL *)
+    destruct Hx as [[Nr Hr] Hrel].
+    assert (Hq : ok (tpfx pfx R pzero r)).
+    { destruct r as [|j q w rl rr]; [discriminate|]. apply (wf_node_inv _ _ _ _ _ _ _ _ _ _ Hr). }
+    apply FM_node'.
+    + intros x ->. apply PD_nocov. eapply nocov_above; eassumption.
+    + intros ->. reflexivity.
+    + revert ls HF. apply d_first_a_FM.
+      * intros a ls [-> | ->] HF; eapply dn_local; eassumption.
+      * intros out H. unfold RD in H. cbn [fst snd dext dlt drt] in H. eapply FM_weaken; [exact H|].
+        intros e o' Hin HP. eapply PD_ceq; [|exact HP]. apply ceq_nocov.
+        eapply nocov_other; [exact Hl | exact Hq | exact Hr | exact Hrel | exact Hin].
+  - (* FirstR *)
+    destruct Hx as [[Nr Hr] Hrel]. destruct r as [|j q w rl rr]; [discriminate|].
+    cbn [tval tpfx] in *. rewrite d_first_b_eq in HF. destruct (sel_wf R _ _ _ _ _ _ p Hr) as [s Hs].
+    cbn [opt_cons].
+    eapply FM_weaken; [eapply dn_local; [exact Hl | exact Hs | exact HF]|].
+    intros e o' Hin HP. eapply PD_sel; [exact Hr | exact Hp | exact Hrel | | exact Hcons | exact HP].
+    eapply entry_under; [exact Hl | exact Hin].
+  - (* OnlyL *)
+    apply FM_node'.
+    + intros x ->. apply PD_nocov. apply nocov_nil.
+    + intros ->. reflexivity.
+    + revert ls HF. apply d_only_FM. intros c out H. exact H.
+Qed.
+
+(** the entries of the left operand whose key is not stored in the right operand, annotated
+    with the longest-prefix match of the key in the right operand *)
+Definition lpm_ann {T} (B : list (pfx * T)) (p : pfx) (ann : option (pfx * T)) : Prop :=
+  match ann with
+  | Some e => Lookup.is_lpm pfx T bits B p e
+  | None => Lookup.no_cover pfx T bits B p
+  end.
+Definition diff_spec (A : list (pfx * L)) (B : list (pfx * R))
+                     (out : list (pfx * L * option (pfx * R))) : Prop :=
+  StronglySorted (fun i j => lex_lt (bits (fst (fst i))) (bits (fst (fst j)))) out /\
+  (forall p l ann, In (p, l, ann) out ->
+     In (p, l) A /\ (forall e, In e B -> bits (fst e) <> bits p) /\ lpm_ann B p ann) /\
+  (forall e, In e A -> (forall e', In e' B -> bits (fst e') <> bits (fst e)) ->
+             exists ann, In (fst e, snd e, ann) out).
+
+Lemma FM_diff_spec ba ta B out : wfL ba ta ->
+  FM (PD B None) (entries ta) out -> diff_spec (entries ta) B out.
+Proof.
+  intros Ha H. split; [|split].
+  - apply (FM_sorted _ _ (fun e => bits (fst e)) (fun it => bits (fst (fst it)))
+                     (PD B None) (entries ta) out).
+    + intros e it [E _]. rewrite <- E. reflexivity.
+    + exact (entries_sorted pfx L bits ok ba ta Ha).
+    + exact H.
+  - intros p l ann Hin. destruct (FM_in _ _ _ _ _ _ H Hin) as [e [He [E [Hne Hann]]]].
+    cbn [fst snd] in *. subst e. cbn [fst] in *. split; [exact He|]. split; [exact Hne|].
+    destruct Hann as [[e [-> Hl]]|[Hnc ->]]; [exact Hl | exact Hnc].
+  - intros e Hin Hne.
+    destruct (FM_complete _ _ _ _ _ _ H Hin) as [[e' [He' Hk]]|[it [Hi [E _]]]].
+    + exfalso. eapply Hne; eauto.
+    + destruct it as [[p l] ann]. cbn [fst] in E. subst e. exists ann. exact Hi.
+Qed.
+
+Definition key_absent (B : list (pfx * R)) (e : pfx * L) : bool :=
+  negb (existsb (fun e' => Bits.beq (bits (fst e')) (bits (fst e))) B).
+
+Lemma FM_filter B rho A out : FM (PD B rho) A out -> map fst out = filter (key_absent B) A.
+Proof.
+  intros H. induction H as [|e A out Hp H IH|e it A out Hp H IH]; [reflexivity| |].
+  - destruct Hp as [e' [He' Hk]]. cbn [filter].
+    assert (E : key_absent B e = false).
+    { unfold key_absent. apply negb_false_iff. apply existsb_exists. exists e'.
+      split; [exact He' | apply beq_spec; exact Hk]. }
+    rewrite E. exact IH.
+  - destruct Hp as [E [Hne _]]. cbn [filter map].
+    assert (E' : key_absent B e = true).
+    { unfold key_absent. apply negb_true_iff. destruct (existsb _ B) eqn:X; [|reflexivity].
+      apply existsb_exists in X. destruct X as [e' [He' Hk]]. apply beq_spec in Hk.
+      exfalso. eapply Hne; eauto. }
+    rewrite E', E, IH. reflexivity.
+Qed.
+
+Lemma difference_FM ba bb ta tb : wfL ba ta -> wfR bb tb ->
+  exists out, difference ta tb = Some out /\ FM (PD (entries tb) None) (entries ta) out.
+Proof.
+  intros Ha Hb.
+  destruct (run_rel (didx * lpmR)%type (pfx * L * lpmR)%type d_expand dsz dok RD d_dec d_local
+                    (so_fuel pfx L R ta tb) (rev (d_ext None (d_next ta tb)))) as [ls [HF Hrun]].
+  - apply Forall_rev. apply d_ext_ok. eapply d_next_ok; eassumption.
+  - rewrite msize_rev, msize_d_ext. pose proof (d_next_size ta tb). unfold so_fuel. lia.
+  - exists (concat ls). split; [exact Hrun|].
+    rewrite d_ext_eq, <- map_rev in HF. apply Forall2_map_l' in HF.
+    eapply dn_local; eassumption.
+Qed.
+
+Theorem difference_correct ba bb ta tb : wfL ba ta -> wfR bb tb ->
+  exists out, difference ta tb = Some out /\ diff_spec (entries ta) (entries tb) out.
+Proof.
+  intros Ha Hb. destruct (difference_FM _ _ _ _ Ha Hb) as [out [E H]].
+  exists out. split; [exact E|]. eapply FM_diff_spec; eassumption.
+Qed.
+
+(** the list form: the (prefix, value) pairs yielded are the left entries, in order, whose key
+    is not stored on the right *)
+Theorem difference_filter ba bb ta tb : wfL ba ta -> wfR bb tb ->
+  exists out, difference ta tb = Some out /\
+    map fst out =
+    filter (fun e => negb (existsb (fun e' => Bits.beq (bits (fst e')) (bits (fst e))) (entries tb)))
+           (entries ta).
+Proof.
+  intros Ha Hb. destruct (difference_FM _ _ _ _ Ha Hb) as [out [E H]].
+  exists out. split; [exact E|]. exact (FM_filter _ _ _ _ H).
+Qed.
+
+(* ---------------------------------------------------------------------------------------- *)
+(** * the [*_mut] twins of difference and covering difference *)
+
+Definition dproj : dmitem pfx L R -> pfx * L * lpmR := fun '(p, (_, l), ann) => (p, l, ann).
+Definition cproj : pfx * (N * L) -> pfx * L := fun '(p, (_, l)) => (p, l).
+
+Lemma dm_sim e :
+  fst (d_expand e) = option_map dproj (fst (dm_expand e)) /\ snd (d_expand e) = snd (dm_expand e).
+Proof.
+  destruct e as [x rho]. destruct x as [l r|l r|l r|l];
+    cbn [SetOps.d_expand SetOps.dm_expand fst snd]; split; try reflexivity;
+    destruct l as [|i p [x|] ll lr]; try reflexivity.
+  cbn [tval idval]. destruct (is_none (tval r)); reflexivity.
+Qed.
+
+Lemma cdm_sim x :
+  fst (cd_expand x) = option_map cproj (fst (cdm_expand x)) /\ snd (cd_expand x) = snd (cdm_expand x).
+Proof.
+  destruct x as [l r|l r|l r|l]; cbn [SetOps.cd_expand SetOps.cdm_expand];
+    try destruct (is_some (tval r)); cbn [fst snd]; split; try reflexivity;
+    destruct l as [|i p [x|] ll lr]; reflexivity.
+Qed.
+
+Lemma dm_item x rho p i l ann :
+  fst (dm_expand (x, rho)) = Some (p, (i, l), ann) -> In (i, p, l) (entries_id (dlt x)).
+Proof.
+  destruct x as [a r|a r|a r|a]; cbn [SetOps.dm_expand fst dlt];
+    destruct a as [|i0 p0 [x0|] ll lr]; cbn [idval tpfx]; try discriminate;
+    try destruct (is_none (tval r)); intros H; inversion H; subst; apply idval_own.
+Qed.
+
+Lemma cdm_item x p i l :
+  fst (cdm_expand x) = Some (p, (i, l)) -> In (i, p, l) (entries_id (dlt x)).
+Proof.
+  destruct x as [a r|a r|a r|a]; cbn [SetOps.cdm_expand dlt];
+    try destruct (is_some (tval r)); cbn [fst];
+    destruct a as [|i0 p0 [x0|] ll lr]; cbn [idval tpfx]; try discriminate;
+    intros H; inversion H; subst; apply idval_own.
+Qed.
+
+Theorem difference_mut_mirrors ba bb ta tb : wfL ba ta -> wfR bb tb ->
+  exists out outm, difference ta tb = Some out /\ difference_mut ta tb = Some outm /\
+    out = map (fun '(p, (_, l), ann) => (p, l, ann)) outm /\
+    (forall p i l ann, In (p, (i, l), ann) outm -> In (i, p, l) (entries_id ta)).
+Proof.
+  intros Ha Hb. destruct (difference_FM _ _ _ _ Ha Hb) as [out [E _]].
+  pose proof (run_sim _ _ _ d_expand dm_expand dproj dm_sim (so_fuel pfx L R ta tb)
+                      (rev (d_ext None (d_next ta tb)))) as Hs.
+  unfold SetOps.difference in E. rewrite E in Hs.
+  destruct (run _ (dmitem pfx L R) dm_expand (so_fuel pfx L R ta tb) (rev (d_ext None (d_next ta tb))))
+    as [outm|] eqn:Em; [|discriminate].
+  cbn [option_map] in Hs. injection Hs as Hs.
+  exists out, outm. split; [exact E|]. split; [exact Em|]. split; [exact Hs|].
+  set (inv := fun e : didx * lpmR => incl (entries_id (dlt (fst e))) (entries_id ta)).
+  set (Q := fun it : dmitem pfx L R => let '(p, (i, l), _) := it in In (i, p, l) (entries_id ta)).
+  assert (HQ : Forall Q outm).
+  { apply (run_inv _ _ dm_expand inv Q) with (n := so_fuel pfx L R ta tb)
+                                             (st := rev (d_ext None (d_next ta tb))); [| |exact Em].
+    - intros [x rho] o cs I1 Hex. unfold inv in I1. cbn [fst] in I1.
+      pose proof (dm_sim (x, rho)) as [_ S2]. rewrite Hex, d_expand_children in S2. cbn [snd] in S2.
+      subst cs. split.
+      + apply Forall_forall. intros c Hc. rewrite d_ext_eq in Hc. apply in_map_iff in Hc.
+        destruct Hc as [x' [<- Hx']]. unfold inv. cbn [fst].
+        eapply incl_tran; [apply sub_incl; apply d_children_in; exact Hx' | exact I1].
+      + intros [[p [i l]] ann] ->. unfold Q. apply I1. eapply dm_item. rewrite Hex. reflexivity.
+    - apply Forall_rev. apply Forall_forall. intros c Hc. rewrite d_ext_eq in Hc. apply in_map_iff in Hc.
+      destruct Hc as [x' [<- Hx']]. unfold inv. cbn [fst]. apply d_next_in in Hx'. rewrite Hx'.
+      apply incl_refl. }
+  intros p i l ann Hin. rewrite Forall_forall in HQ. exact (HQ _ Hin).
+Qed.
+
+Theorem covering_difference_mut_mirrors ba bb ta tb : wfL ba ta -> wfR bb tb ->
+  exists out outm, covering_difference ta tb = Some out /\ covering_difference_mut ta tb = Some outm /\
+    out = map (fun '(p, (_, l)) => (p, l)) outm /\
+    (forall p i l, In (p, (i, l)) outm -> In (i, p, l) (entries_id ta)).
+Proof.
+  intros Ha Hb. destruct (covering_difference_correct _ _ _ _ Ha Hb) as [out [E _]].
+  pose proof (run_sim _ _ _ cd_expand cdm_expand cproj cdm_sim (so_fuel pfx L R ta tb)
+                      (rev (d_next ta tb))) as Hs.
+  unfold SetOps.covering_difference in E. rewrite E in Hs.
+  destruct (run _ (pfx * (N * L))%type cdm_expand (so_fuel pfx L R ta tb) (rev (d_next ta tb)))
+    as [outm|] eqn:Em; [|discriminate].
+  cbn [option_map] in Hs. injection Hs as Hs.
+  exists out, outm. split; [exact E|]. split; [exact Em|]. split; [exact Hs|].
+  set (inv := fun x : didx => incl (entries_id (dlt x)) (entries_id ta)).
+  set (Q := fun it : pfx * (N * L) => let '(p, (i, l)) := it in In (i, p, l) (entries_id ta)).
+  assert (HQ : Forall Q outm).
+  { apply (run_inv _ _ cdm_expand inv Q) with (n := so_fuel pfx L R ta tb)
+                                              (st := rev (d_next ta tb)); [| |exact Em].
+    - intros x o cs I1 Hex. unfold inv in I1.
+      pose proof (cdm_sim x) as [_ S2]. rewrite Hex in S2. cbn [snd] in S2.
+      split.
+      + destruct (cd_children x (fst (cd_expand x)) cs) as [-> | ->];
+          [rewrite <- S2; apply surjective_pairing | | constructor].
+        apply Forall_forall. intros c Hc. unfold inv.
+        eapply incl_tran; [apply sub_incl; apply d_children_in; exact Hc | exact I1].
+      + intros [p [i l]] ->. unfold Q. apply I1. eapply cdm_item. rewrite Hex. reflexivity.
+    - apply Forall_rev. apply Forall_forall. intros c Hc. unfold inv. apply d_next_in in Hc.
+      rewrite Hc. apply incl_refl. }
+  intros p i l Hin. rewrite Forall_forall in HQ. exact (HQ _ Hin).
+Qed.
+
+End ID.
+
+Print Assumptions intersection_correct.
+Print Assumptions intersection_disjoint.
+Print Assumptions covering_difference_correct.
+Print Assumptions difference_correct.
+Print Assumptions difference_filter.
+Print Assumptions intersection_mut_mirrors.
+Print Assumptions difference_mut_mirrors.
+Print Assumptions covering_difference_mut_mirrors.
